@@ -104,11 +104,32 @@ func newState() (*eval.State, *bytes.Buffer) {
 
 // evalQuiet evaluates one input like the REPL does (panic recovery, time limit).
 func evalQuiet(s *eval.State, out *bytes.Buffer, in string) (panicked bool, errs []string) {
+	return evalQuietD(s, out, in, 300*time.Millisecond)
+}
+
+// evalQuietD: d <= 0 = no deadline (the property has no time clause: saving and loading a state file get none)
+func evalQuietD(s *eval.State, out *bytes.Buffer, in string, d time.Duration) (panicked bool, errs []string) {
 	_, panicked, errs, _ = repl.EvalOne(context.Background(), s, in, out,
-		repl.Options{All: true, ShowEval: true, NoColor: true, MaxDuration: 300 * time.Millisecond})
+		repl.Options{All: true, ShowEval: true, NoColor: true, MaxDuration: d})
 	s.Out, s.LogOut = out, out
 	s.Context, s.Cancel = nil, nil // EvalOne leaves its cancelled context behind: a later EvalString on the state would fail
+	if deadlineHit(errs) {
+		sawDeadline = true
+	}
 	return
+}
+
+// the harness's own evaluation deadline fired (the implementation sets none): a limit of the machinery, reported
+// under its own name and never as a lost binding or a changed behaviour
+var sawDeadline bool
+
+func deadlineHit(errs []string) bool {
+	for _, e := range errs {
+		if strings.Contains(e, "context deadline exceeded") || strings.Contains(e, "context canceled") {
+			return true
+		}
+	}
+	return false
 }
 
 func build(stmts []string) (*eval.State, *bytes.Buffer) {
@@ -577,7 +598,7 @@ func checkEnv(c *Ctx, e envCase, emit bool) {
 	if !bytes.Equal(fileA, lim) {
 		failf(c, "autosave-differs-from-SaveGlobals", rp, fmt.Sprintf("%q vs %q", fileA, lim))
 	}
-	evalQuiet(s1, out1, `save("st")`)
+	evalQuietD(s1, out1, `save("st")`, 0)
 	fileB, _ := os.ReadFile("st.gr")
 	if !bytes.Equal(fileB, lim) {
 		failf(c, "save-extension-differs-from-SaveGlobals", rp, fmt.Sprintf("%q vs %q", fileB, lim))
@@ -587,7 +608,7 @@ func checkEnv(c *Ctx, e envCase, emit bool) {
 	sA.MaxValueLen = e.maxLen
 	errA := repl.AutoLoad(sA, repl.Options{AutoLoad: true, AutoSave: true, MaxValueLen: e.maxLen}) // the session's real configuration
 	sB, outB := newState()
-	_, errsB := evalQuiet(sB, outB, `load("st")`)
+	_, errsB := evalQuietD(sB, outB, `load("st")`, 0)
 	outA.Reset()
 	outB.Reset()
 	limited := map[string]bool{}
@@ -764,9 +785,14 @@ func checkEnv(c *Ctx, e envCase, emit bool) {
 				args = append(args, a)
 			}
 			call := n + "(" + strings.Join(args, ",") + ")"
+			sawDeadline = false
 			r1 := callObs(s1, out1, call)
 			for _, w := range ways[:1] {
 				r2 := callObs(w.s, w.out, call)
+				if sawDeadline {
+					c.Count("harness-resource-limit:call-deadline") // one side ran out of the harness's time: no verdict
+					continue
+				}
 				if r1 != r2 {
 					failf(c, fnSig(f, n, "behaviour-changed"), rp, fmt.Sprintf("%s: %s gives %s, after reload %s (%s)", w.tag, call, r1, r2, lastErrs))
 				}
